@@ -38,8 +38,10 @@ Pick(S) == CHOOSE x \in S : TRUE
 
 ListsOver(E, za, deep) ==
   LET a == za[1] b == za[2]
-  IN {Nil, SeqV(<<>>), SeqV(<<a>>), SeqV(<<a, b>>)}
-     \cup (IF deep THEN {SeqV(<<b>>), SeqV(<<b, a>>), SeqV(<<a, b, a>>)} ELSE {})
+  \* <<b, a>> next to <<a, b>>: a list that keeps its LENGTH while every element changes (zero / nil first, set later and
+  \* the other way round) - a converter that reuses the elements the target already holds is seen by that pair only
+  IN {Nil, SeqV(<<>>), SeqV(<<a>>), SeqV(<<a, b>>), SeqV(<<b, a>>)}
+     \cup (IF deep THEN {SeqV(<<b>>), SeqV(<<a, b, a>>)} ELSE {})
 
 MapsOver(E, za, deep) ==
   LET a == za[1] b == za[2]
